@@ -202,19 +202,19 @@ def rule_files(ctx):
     ctx.check('files', 'only-when-name-parses', 'parse_blk_index(%s, "blk", ".dat") is Some' % name in g, cs, 'guard parse_blk_index(..) is Some')
     pb = prog.one('BlkFile::parse_blk_index')
     ctx.touch(pb)
-    rets = sorted((canon(pb.rvalue_expr(d[3])) if d[0] == 'assign' else canon(pb.call_expr(d[2])), tuple(util.guards_at(pb, d[1]))) for d in pb.ret_defs())
-    exp = sorted([('ok(parse(a1[Range::Range{start: len(a2), end: (len(a1) - len(a3))}]))', ('ends_with(a1, a3)', 'starts_with(a1, a2)')),
-                  ('Option::None{}', ())])
-    ctx.check('files', 'prefix-suffix-middle', rets == exp, pb, 'parse_blk_index = %s' % rets)
+    # outcomes per path: Some(n) exactly when prefix and suffix match and the middle parses; None otherwise
+    mid = 'a1[Range::Range{start: len(a2), end: (len(a1) - len(a3))}]'
+    outs = sorted(set((canon(pb.rvalue_expr(d[3])) if d[0] == 'assign' else canon(pb.call_expr(d[2])), tuple(g))
+                      for d in pb.ret_defs() for g in util.path_guard_sets(pb, d[1])))
+    some = [o for o in outs if o[0].startswith('Option::Some')]
+    none = [o for o in outs if o[0] == 'Option::None{}']
+    other = [o for o in outs if o not in some and o not in none]
+    ok_some = some == [('Option::Some{0: parse(%s)?}' % mid, ('ends_with(a1, a3)', 'parse(%s) is Ok' % mid, 'starts_with(a1, a2)'))]
+    ctx.check('files', 'prefix-suffix-middle', ok_some and not other, pb, 'parse_blk_index = %s' % outs)
     pr = [c for c in pb.calls if mir.method_name(c.name) == 'parse']
     ctx.check('files', 'middle-parses-as-u64', len(pr) == 1 and pr[0].gargs and pr[0].gargs[-1] == 'u64', pb, 'str::parse::<%s>' % (pr[0].gargs[-1] if pr else '?'))
-    # None is returned exactly when prefix/suffix do not match
-    for d in pb.ret_defs():
-        if d[0] == 'assign' and canon(pb.rvalue_expr(d[3])) == 'Option::None{}':
-            preds = pb.pred[d[1]]
-            conds = sorted(tuple(sorted(util.crel(x) for x in util.facts_to_rels(pb.facts_on_edge(p, d[1])))) for p in preds)
-            exp2 = sorted([('!starts_with(a1, a2)',), ('!ends_with(a1, a3)', 'starts_with(a1, a2)')])
-            ctx.check('files', 'other-names-skipped', conds == exp2, (pb, d[1]), 'None on %s' % conds)
+    exp_none = sorted([('!starts_with(a1, a2)',), ('!ends_with(a1, a3)', 'starts_with(a1, a2)'), ('ends_with(a1, a3)', 'parse(%s) is Err' % mid, 'starts_with(a1, a2)')])
+    ctx.check('files', 'other-names-skipped', sorted(o[1] for o in none) == exp_none, pb, 'None on %s' % [o[1] for o in none])
     # unreadable directory entries are skipped with a warning, not fatal and not inserted
     scan = [c for c in fp.calls if mir.method_name(c.name) == 'read_dir']
     ctx.check('files', 'scan-of-blockchain-dir', len(scan) == 1 and canon(fp.op_expr(scan[0].args[0])) == 'a1', fp, 'read_dir(path)')
